@@ -109,3 +109,16 @@ Definition run_render (name : str) (r : grec) : tok := t_str (render name r).
 Definition run_its5 (its : gr) (core reindex explicit_h : bool) : tok :=
   L [run_its4 its core reindex explicit_h; t_str (render (s2l "rule") (its_to_gml its core reindex explicit_h))].
 Definition run_text2 (t : str) : tok := topt t_parsed (text_to_nx t).
+
+(** ** vocabulary of the text round-trip theorem: an entry whose rendered line the reader tokenises back — the label has no
+    whitespace and no double quote, and the line does not contain a section keyword (nor, for an edge, the word node) *)
+Definition label_okb (l : str) : bool := forallb (fun c => negb (is_ws c) && negb (N.eqb c 34)) l.
+Definition ent_label (e : gent) : str := match e with GNode _ l => l | GEdge _ _ l => l end.
+Definition ent_okb (e : gent) : bool :=
+  let line := join 32 (ent_toks e) in
+  label_okb (ent_label e) && negb (contains k_left line) && negb (contains k_context line) && negb (contains k_right line)
+  && match e with GNode _ _ => true | GEdge _ _ _ => negb (contains k_node line) end.
+Definition rec_okb (r : grec) : bool := forallb (fun sc : gsec * list gent => forallb ent_okb (snd sc)) r.
+Definition flatten (r : grec) : list (gsec * gent) := flat_map (fun sc : gsec * list gent => map (pair (fst sc)) (snd sc)) r.
+Definition run_its6 (its : gr) (core reindex explicit_h : bool) : tok :=
+  L [run_its5 its core reindex explicit_h; tbool (rec_okb (its_to_gml its core reindex explicit_h))].
